@@ -2,5 +2,7 @@
 import Relsad.Model.TimeM
 import Relsad.Model.Increments
 import Relsad.Model.Battery
+import Relsad.Model.Fail
 import Relsad.Props.C17
 import Relsad.Props.C11
+import Relsad.Props.C13
